@@ -11,7 +11,6 @@ import hashlib
 import logging
 import os
 import random
-import tempfile
 from types import SimpleNamespace
 from unittest import mock
 
@@ -639,7 +638,7 @@ def replay(kind: str, case: dict, env: dict, hist: list, workdir: str, keep_text
                         text, feats = observe_results(driver, fresh, fresh_record)
                         step.update(fj=digest(text), fe=digest(repr(feats)))
                     except Exception as err:  # pylint: disable=broad-except
-                        step.update(fj="exc " + exc_text(err), fe="exc")
+                        step.update(fj="exc " + exc_text(err), fe="exc")         # never equal to a real digest
             if kind == "hmmer":
                 before = asjson.loads(saved_text)["hits"]
                 step["hits"] = [hit_key(hit) for hit in before]
